@@ -1,21 +1,18 @@
 SPECIFICATION Spec
 CONSTANTS
   Classes <- Classes4
-  Outs <- OutsC05
+  Outs <- OutsC16
   Durs = {0}
-  Rets <- RetsAll
+  Rets <- RetsTwo
   Advs <- AdvsExact
   Decs <- DecsAll
   BFaults <- BFaultsNone
-  Ras <- RasSome
+  Ras <- RasNone
   Modes = {"call", "exec"}
   RunGaps <- GapsNone
   NRuns = 1
-  Configs <- ConfigsC05
-  RecordHist = FALSE
+  Configs <- ConfigsC16T
+  RecordHist = TRUE
 INVARIANT NoViolation
-INVARIANT AttemptsBounded
-INVARIANT InvokeWithinDeadline
-INVARIANT SleepWithinRemaining
-INVARIANT DeliveriesRelated
+INVARIANT ExportBehaviours
 CHECK_DEADLOCK FALSE
